@@ -1006,15 +1006,9 @@ func runCACHEKEY(c *Ctx) {
 			}
 			pos := P.InstrPos(ci)
 			what := ext + " in " + ir.FuncName(fn)
-			sp, env := sprintfThroughHelpers(ir.Origin(ci.Common().Args[0]), 0)
-			if sp == nil {
-				c.Violation(fn, pos, ext+" key not built by Sprintf(prefix, name)", "the cache key is not the store prefix joined with the node name: a cache shared between stores can short-circuit a write or serve a node of another store")
-				continue
-			}
-			format, _ := sp.Call.Args[0].(*ssa.Const)
-			parts := varargValues(sp.Call.Args[1])
-			if format == nil || len(parts) != 2 {
-				c.Violation(fn, pos, ext+" key format", "cache key format is not a constant two-part format")
+			parts, fs, env := keyParts(ir.Origin(ci.Common().Args[0]))
+			if parts == nil {
+				c.Violation(fn, pos, ext+" key not built from (prefix, name)", "the cache key is not the store prefix joined with the node name (Sprintf or concatenation): a cache shared between stores can short-circuit a write or serve a node of another store")
 				continue
 			}
 			// map values of a key-building helper back to the arguments it was called with
@@ -1027,11 +1021,6 @@ func runCACHEKEY(c *Ctx) {
 					v = env[p]
 				}
 				return v
-			}
-			fs := strings.Trim(format.Value.ExactString(), "\"")
-			if strings.Count(fs, "%") != 2 || !strings.HasPrefix(fs, "%") {
-				c.Violation(fn, pos, ext+" key format", "cache key format "+fs+" does not start with the store prefix followed by the name")
-				continue
 			}
 			// part 0: P.NodeURLPrefix() ; part 1: the name
 			pfx, _ := ir.Origin(parts[0]).(*ssa.Call)
@@ -1239,4 +1228,75 @@ func sentinelMayStopHere(fn *ssa.Function, sentinel ssa.Value) bool {
 		return true
 	}
 	return fn.Parent() == nil && fn.Object() != nil && fn.Object().Exported()
+}
+
+// keyParts decomposes a cache key into (prefix value, name value): either
+// fmt.Sprintf with a constant two-verb format that starts with a verb, or a
+// string concatenation prefix + constant separators + name — possibly built by
+// a helper (single return, depth ≤ 2; env maps the helper's parameters to the
+// call's arguments). fs describes the shape for the report.
+func keyParts(v ssa.Value) (parts []ssa.Value, fs string, env map[*ssa.Parameter]ssa.Value) {
+	env = map[*ssa.Parameter]ssa.Value{}
+	for d := 0; d < 3; d++ {
+		if bin, ok := v.(*ssa.BinOp); ok && bin.Op == token.ADD {
+			var leaves []ssa.Value
+			var flat func(x ssa.Value)
+			flat = func(x ssa.Value) {
+				if b, ok := x.(*ssa.BinOp); ok && b.Op == token.ADD {
+					flat(b.X)
+					flat(b.Y)
+					return
+				}
+				leaves = append(leaves, x)
+			}
+			flat(bin)
+			if len(leaves) < 2 {
+				return nil, "", nil
+			}
+			for _, m := range leaves[1 : len(leaves)-1] {
+				if _, isC := m.(*ssa.Const); !isC {
+					return nil, "", nil
+				}
+			}
+			return []ssa.Value{leaves[0], leaves[len(leaves)-1]}, "prefix + sep + name", env
+		}
+		call, ok := v.(*ssa.Call)
+		if !ok {
+			return nil, "", nil
+		}
+		sc := call.Call.StaticCallee()
+		if sc == nil {
+			return nil, "", nil
+		}
+		if sc.String() == "fmt.Sprintf" {
+			format, _ := call.Call.Args[0].(*ssa.Const)
+			ps := varargValues(call.Call.Args[1])
+			if format == nil || len(ps) != 2 {
+				return nil, "", nil
+			}
+			f := strings.Trim(format.Value.ExactString(), "\"")
+			if strings.Count(f, "%") != 2 || !strings.HasPrefix(f, "%") {
+				return nil, "", nil
+			}
+			return ps, f, env
+		}
+		if sc.Blocks == nil {
+			return nil, "", nil
+		}
+		rets := ir.Returns(sc)
+		if len(rets) != 1 || len(rets[0].Results) != 1 {
+			return nil, "", nil
+		}
+		for i, p := range sc.Params {
+			if i < len(call.Call.Args) {
+				a := call.Call.Args[i]
+				if pp, isP := ir.Strip(ir.ResolveCell(a)).(*ssa.Parameter); isP && env[pp] != nil {
+					a = env[pp]
+				}
+				env[p] = a
+			}
+		}
+		v = ir.Origin(rets[0].Results[0])
+	}
+	return nil, "", nil
 }
